@@ -186,6 +186,21 @@ def main():
             rep["mismatches"].append(dict(key=key, **d))
 
     from src.food_system.outdoor_crops import OutdoorCrops
+    # the fish disruption schedule handed out by the scenario loader: the same on every set-up of a process, starting at 100 %
+    try:
+        from src.scenarios.scenarios import Scenarios
+        got = []
+        for _ in range(3):
+            sc = Scenarios()
+            with contextlib.redirect_stdout(io.StringIO()):
+                tcx = sc.set_fish_nuclear_winter_reduction({})
+            got.append(np.array(tcx["FISH_PERCENT_MONTHLY"], dtype=float))
+        if not (np.array_equal(got[0], got[1]) and np.array_equal(got[1], got[2])):
+            bad("C08:SetupIsRepeatable:fish", dict(first=float(got[0][0]), second=float(got[1][0]), third=float(got[2][0])))
+        if abs(got[0][0] - 100.0) > 1e-9 or np.any(got[0] < 0) or np.any(got[0] > 100.0 + 1e-9):
+            bad("C08:EqualsDocumented:fish_schedule", dict(first=float(got[0][0]), minimum=float(got[0].min()), maximum=float(got[0].max())))
+    except BaseException as ex:  # noqa
+        bad("exception", dict(where="fish schedule", exc=repr(ex)[:160]))
     stock_idx = {r["start"]: r["idx"] for r in recs if r["k"] == "Stock"}
     for r in recs:
         if r["k"] == "Y1":
